@@ -148,6 +148,12 @@ class RawBinaryReader:
                 futures.append(executor.submit(read_bes_raw, batch_data, sub_detectors))
                 n_total_blocks_read += n_read
 
+            if not futures:
+                # no event block in the requested range: decode an empty batch so that the
+                # result is an empty array with the usual fields
+                empty_batch = np.empty(0, dtype=np.uint32)
+                futures.append(executor.submit(read_bes_raw, empty_batch, sub_detectors))
+
             res = []
             for future in futures:
                 org_dict = future.result()
